@@ -90,7 +90,27 @@ def generate(seed, tier, index):
     for st in steps:
         if st["op"] == "msg" and st["style"]["decl"] not in (0, 1):
             st["style"]["decl"] = 1
-    return {"world": world, "steps": steps,
+    glob_names = rng.random() < 0.25
+    if glob_names:
+        # legal names that contain what a pattern language would take for metacharacters (indexed names like "CCD [1]",
+        # "OFFSET[0]", "GAIN*"): a filter is a name, it must match that name and nothing else
+        ren = {"DA": "D[AB]", "P1": "P*", "E1": "E?", "DZ": "D?", "P9": "P[1-9]", "E9": "[E]9"}
+        r1 = lambda x: ren.get(x, x)  # noqa
+        for st in steps:
+            if st["op"] == "msg":
+                sp = st["spec"]
+                for a in sp["attrs"]:
+                    if a[0] in ("device", "name"):
+                        a[1] = r1(a[1])
+                for k in sp["children"]:
+                    for a in k["attrs"]:
+                        if a[0] == "name":
+                            a[1] = r1(a[1])
+            else:
+                for key in ("device", "vector", "element"):
+                    if st.get(key) is not None:
+                        st[key] = r1(st[key])
+    return {"world": world, "steps": steps, "glob_names": glob_names,
             "net": {"latency": rng.choice(["zero", "lan", "slow"]), "frag": rng.choice(["whole", "fixed:7", "random", "coalesce"]), "hwm": 65536},
             "seed": rng.randrange(1 << 30)}
 
@@ -378,6 +398,8 @@ def execute(scen):
         shapes = tuple(sorted({(c["filter"]["device"] is not None, c["filter"]["vector"] is not None, c["filter"]["element"] is not None, c["filter"]["type"]) for c in cbs.values()}))
         if any(c["kind"] == "raising" and c["log"] for c in cbs.values()):
             probes["raising_callback_invoked"] = 1
+        if scen.get("glob_names"):
+            probes["names_with_pattern_metacharacters"] = 1
         if any(c["kind"] == "raising_cancelled" and c["log"] for c in cbs.values()):
             probes["callback_raising_CancelledError_invoked"] = 1
         digest = sim.digest() + repr([(cid, [e for e, _ in c["log"]]) for cid, c in sorted(cbs.items())])
